@@ -1,807 +1,172 @@
 package rules
 
 import (
-	"go/ast"
-	"go/token"
-	"go/types"
-	"sort"
-	"strings"
-
-	"golang.org/x/tools/go/cfg"
-
 	"osmcheck/core"
 )
+
+// C15: applying updates is exact, composable and agrees with geometry-at-time.
+//
+// Files: c15.go (registration, sensitivity and robustness suites), c15_model.go (paths, call environments, oracle,
+// CFG walks), c15_u1.go … c15_u5.go (one rule each), c15_shared.go (syntactic helpers other rule files call).
+//
+// Anchors are exported API only: (*Way).ApplyUpdatesUpTo, (*Relation).ApplyUpdatesUpTo, Updates.UpTo,
+// (*Way).LineStringAt, WayNode.Point, the types Update / Updates / WayNode / Member and their fields. Unexported
+// functions (applyUpdate today) are found by role: "called from the scanning loop with the loop's element",
+// "assigns to a field of <receiver>.<children>[<update>.Index]".
 
 func init() {
 	register(&core.Property{
 		ID:    "C15",
 		Title: "Applying updates is exact, composable and agrees with geometry-at-time",
-		Explanation: "Structural necessary conditions, decided for every path of every loop over an osm.Updates value in package osm: " +
-			"(U1) an update stamped after t is skipped and never ends the scan (stored order is index order, not time order); " +
-			"(U2) ApplyUpdatesUpTo keeps skipped updates, in loop order, as the new pending list and applies every other update through applyUpdate with its error propagated; " +
-			"(U3) every X[u.Index] is dominated by a `u.Index >= len(X)` test whose true edge leaves without reaching the use; " +
-			"(U4) applyUpdate copies exactly Version, ChangesetID, Lat, Lon from same-named update fields, flips Orientation only under u.Reverse, and LineStringAt writes lon/lat into the same point slots WayNode.Point uses. " +
-			"NOT decided: composability t1 then t2 and geometry equality as values; negative update indices.",
-		Assumptions: []string{"go/types, go/cfg (x/tools v0.29.0)", "time.Time.After semantics", "orb.Point is [2]float64"},
-		LevelText:   "Structural necessary conditions of the update-application semantics, decided on every path of every loop over osm.Updates and at every X[u.Index] site: skip-not-stop on too-late updates, pending list kept in order, index guard dominance, field copy agreement. Value-level composability and geometry equality are not decided.",
-		LevelNote:   "Trusts the Go type checker and go/cfg; semantics of time.Time.After; rules cover package osm only (the loops the property names).",
-		Technique:   "per-function CFG path rules (go/cfg dominators, edge regions) + type-resolved field-copy tables",
+		Explanation: "Structural necessary conditions, decided by finite-domain evaluation of the control-flow graphs of every exported function of package osm that has a time parameter t and reaches (itself or through unexported helpers) a loop over an osm.Updates value: " +
+			"(U1) each such loop, evaluated for the element's Timestamp before / equal to / after t, treats an update after t by paths that all return to the loop head (no break, return, panic) with effects disjoint from the in-time effects, and treats `before` and `equal` alike (stored order is index order, not time order); a loop over the result of a function verified to return exactly the in-time elements of its input in order (Updates.UpTo, or one result of a splitter helper), called with t, counts as already classified; " +
+			"(U2) in ApplyUpdatesUpTo the only effect for an update after t is `P = append(P, u)` on every path, P has no other non-empty assignment and is stored back into the scanned Updates field before every success return; every update at or before t reaches the call that applies it, and a non-nil error of that call always reaches a return that carries it; " +
+			"(U3) every X[u.Index] is controlled by a test that establishes u.Index < len(X) (in the function or at every call site of an unexported function), and for an in-time update whose Index is out of range ApplyUpdatesUpTo ends in a return with a non-nil error on every path; " +
+			"(U4) the code reached from ApplyUpdatesUpTo assigns exactly Version, ChangesetID, Lat, Lon of <receiver>.<children>[u.Index] from the same-named fields of the scanned update on every success path of an in-range update, negates Orientation exactly when u.Reverse holds, and LineStringAt writes the update's coordinates into the point slots WayNode.Point uses; " +
+			"(U5) every return with a nil error / normal result of these functions is dominated by the normal exit of the loop over the update list (or is taken under an empty-list test), and the loop has no break: no shortcut skips the scan. " +
+			"The rules look through unexported helpers, predicate helpers, boolean locals, pointer aliases, merged / inverted / switch-form guards, index loops and renamed locals. " +
+			"NOT decided: composability t1 then t2 and geometry equality as values; negative update indices; which error type reports an out-of-range index; scans moved into function literals or called through function values (the API anchor then fails instead of passing); the state left behind when ApplyUpdatesUpTo returns an error; behaviour of callers outside package osm.",
+		Assumptions: []string{"go/types, go/cfg (x/tools v0.29.0)", "semantics of time.Time.After/Before/Equal/Compare", "orb.Point is [2]float64", "static calls inside package osm resolve to the declared function (no function values for the helpers)"},
+		LevelText:   "Structural necessary conditions of the update-application semantics, decided by evaluating the CFG of every time-bounded scan of an osm.Updates list for the abstract inputs {Timestamp before, equal, after t} x {Index in range, out of range} x {Reverse true, false}: skip-not-stop on too-late updates, inclusive bound, pending list kept in order and stored back, in-time updates applied with error propagation, index guard, out-of-range reported, field copy agreement, orientation flip, geometry slots, no success exit before the scan completed. Value-level composability and geometry equality are not decided.",
+		LevelNote:   "Trusts the Go type checker and go/cfg; semantics of time.Time comparisons; rules cover package osm only (the loops the property names). Helpers are followed through static calls to depth 4; anything else is reported as undecided.",
+		Technique:   "finite-domain evaluation of per-function CFGs (go/cfg) under three-valued oracles, with interprocedural parameter binding, alias-resolved access paths and guard facts",
 		DesignRef:   "DESIGN.md §5 C15",
 		Rules: []*core.Rule{
-			{ID: "U1", Floor: 4, Doc: "too-late updates are skipped and never terminate the scan", Run: c15U1},
-			{ID: "U2", Floor: 4, Doc: "ApplyUpdatesUpTo keeps pending updates in order, applies the rest, propagates errors", Run: c15U2},
-			{ID: "U3", Floor: 10, Doc: "every X[u.Index] is guarded by u.Index >= len(X)", Run: c15U3},
-			{ID: "U4", Floor: 5, Doc: "applyUpdate / LineStringAt copy agreement", Run: c15U4},
+			{ID: "U1", Floor: 4, Doc: "every time-bounded loop over Updates skips (never stops at) an update after t, keeps its handling disjoint from the in-time handling, and treats `equal to t` as in time", Run: c15U1},
+			{ID: "U2", Floor: 4, Doc: "ApplyUpdatesUpTo keeps exactly the updates after t, in order, as the new pending list; applies every other update; propagates the error", Run: c15U2},
+			{ID: "U3", Floor: 5, Doc: "every X[u.Index] is controlled by u.Index < len(X); an out-of-range in-time update makes ApplyUpdatesUpTo return a non-nil error", Run: c15U3},
+			{ID: "U4", Floor: 5, Doc: "child field copies / orientation flip reached from ApplyUpdatesUpTo and point slots in LineStringAt agree, unconditionally for in-range in-time updates", Run: c15U4},
+			{ID: "U5", Floor: 4, Doc: "no success exit of a time-bounded scan before the loop over the update list has completed", Run: c15U5},
 		},
 		Mutants: []core.Mutant{
 			{Name: "way-apply-break", File: "way.go", Find: "notApplied = append(notApplied, u)\n\t\t\tcontinue", Replace: "notApplied = append(notApplied, u)\n\t\t\tbreak", ExpectRule: "U1", ExpectConstruct: "(*Way).ApplyUpdatesUpTo"},
 			{Name: "upto-break", File: "update.go", Find: "if u.Timestamp.After(t) {\n\t\t\tcontinue", Replace: "if u.Timestamp.After(t) {\n\t\t\tbreak", ExpectRule: "U1", ExpectConstruct: "Updates.UpTo"},
-			{Name: "rel-drop-pending", File: "relation.go", Find: "\t\t\tnotApplied = append(notApplied, u)\n", Replace: "", ExpectRule: "U2", ExpectConstruct: "(*Relation).ApplyUpdatesUpTo"},
-			{Name: "way-guard-gt", File: "way.go", Find: "if u.Index >= len(w.Nodes) {", Replace: "if u.Index > len(w.Nodes) {", ExpectRule: "U3", ExpectConstruct: "(*Way).applyUpdate"},
+			{Name: "upto-before", File: "update.go", Find: "if u.Timestamp.After(t) {\n\t\t\tcontinue", Replace: "if u.Timestamp.Before(t) {\n\t\t\tcontinue", ExpectRule: "U1", ExpectConstruct: "Updates.UpTo"},
+			{Name: "upto-exclusive", File: "update.go", Find: "if u.Timestamp.After(t) {\n\t\t\tcontinue", Replace: "if !u.Timestamp.Before(t) {\n\t\t\tcontinue", ExpectRule: "U1", ExpectConstruct: "Updates.UpTo"},
+			{Name: "lsat-no-test", File: "way.go", Find: "\t\tif u.Timestamp.After(t) {\n\t\t\tcontinue\n\t\t}\n\n\t\tif u.Index >= len(ls)", Replace: "\t\tif u.Index >= len(ls)", ExpectRule: "U1", ExpectConstruct: "(*Way).LineStringAt"},
+			{Name: "lsat-return-on-late", File: "way.go", Find: "\t\tif u.Timestamp.After(t) {\n\t\t\tcontinue\n\t\t}\n\n\t\tif u.Index >= len(ls)", Replace: "\t\tif u.Timestamp.After(t) {\n\t\t\treturn ls\n\t\t}\n\n\t\tif u.Index >= len(ls)", ExpectRule: "U1", ExpectConstruct: "(*Way).LineStringAt"},
+			{Name: "rel-drop-pending", File: "relation.go", Find: "\t\t\tnotApplied = append(notApplied, u)\n", Replace: "", ExpectRule: "U2", ExpectConstruct: "pending@(*Relation).ApplyUpdatesUpTo"},
+			{Name: "way-drop-store", File: "way.go", Find: "\tw.Updates = notApplied\n", Replace: "", ExpectRule: "U2", ExpectConstruct: "pending@(*Way).ApplyUpdatesUpTo"},
+			{Name: "rel-pending-prepend", File: "relation.go", Find: "notApplied = append(notApplied, u)", Replace: "notApplied = append([]Update{u}, notApplied...)", ExpectRule: "U2", ExpectConstruct: "pending@(*Relation).ApplyUpdatesUpTo"},
+			{Name: "way-error-swallowed", File: "way.go", Find: "if err := w.applyUpdate(u); err != nil {\n\t\t\treturn err\n\t\t}", Replace: "if err := w.applyUpdate(u); err != nil {\n\t\t\tcontinue\n\t\t}", ExpectRule: "U2", ExpectConstruct: "apply@(*Way).ApplyUpdatesUpTo"},
+			{Name: "rel-error-dropped", File: "relation.go", Find: "if err := r.applyUpdate(u); err != nil {\n\t\t\treturn err\n\t\t}", Replace: "_ = r.applyUpdate(u)", ExpectRule: "U2", ExpectConstruct: "apply@(*Relation).ApplyUpdatesUpTo"},
+			{Name: "way-guard-gt", File: "way.go", Find: "if u.Index >= len(w.Nodes) {", Replace: "if u.Index > len(w.Nodes) {", ExpectRule: "U3", ExpectConstruct: "index@Way.Nodes"},
 			{Name: "lsat-guard-dropped", File: "way.go", Find: "if u.Index >= len(ls) {\n\t\t\tcontinue\n\t\t}\n", Replace: "", ExpectRule: "U3", ExpectConstruct: "(*Way).LineStringAt"},
-			{Name: "rel-latlon-swapped", File: "relation.go", Find: "r.Members[u.Index].Lat = u.Lat", Replace: "r.Members[u.Index].Lat = u.Lon", ExpectRule: "U4", ExpectConstruct: "(*Relation).applyUpdate"},
+			{Name: "rel-guard-other-list", File: "relation.go", Find: "if u.Index >= len(r.Members) {", Replace: "if u.Index >= len(r.Updates) {", ExpectRule: "U3", ExpectConstruct: "index@Relation.Members"},
+			{Name: "rel-oob-silent", File: "relation.go", Find: "return &UpdateIndexOutOfRangeError{Index: u.Index}", Replace: "return nil", ExpectRule: "U3", ExpectConstruct: "oob@(*Relation).ApplyUpdatesUpTo"},
+			{Name: "rel-latlon-swapped", File: "relation.go", Find: "r.Members[u.Index].Lat = u.Lat", Replace: "r.Members[u.Index].Lat = u.Lon", ExpectRule: "U4", ExpectConstruct: "copy@Relation.Members"},
 			{Name: "lsat-latlon-swapped", File: "way.go", Find: "ls[u.Index][0] = u.Lon", Replace: "ls[u.Index][0] = u.Lat", ExpectRule: "U4", ExpectConstruct: "LineStringAt"},
 			{Name: "rel-reverse-unconditional", File: "relation.go", Find: "if u.Reverse {\n\t\tr.Members[u.Index].Orientation *= -1\n\t}", Replace: "r.Members[u.Index].Orientation *= -1", ExpectRule: "U4", ExpectConstruct: "Orientation"},
-			{Name: "way-drop-changeset", File: "way.go", Find: "\tw.Nodes[u.Index].ChangesetID = u.ChangesetID\n", Replace: "", ExpectRule: "U4", ExpectConstruct: "(*Way).applyUpdate"},
-			{Name: "upto-before", File: "update.go", Find: "if u.Timestamp.After(t) {\n\t\t\tcontinue", Replace: "if u.Timestamp.Before(t) {\n\t\t\tcontinue", ExpectRule: "U1", ExpectConstruct: "Updates.UpTo"},
+			{Name: "rel-reverse-inverted", File: "relation.go", Find: "if u.Reverse {\n\t\tr.Members[u.Index].Orientation *= -1", Replace: "if !u.Reverse {\n\t\tr.Members[u.Index].Orientation *= -1", ExpectRule: "U4", ExpectConstruct: "Orientation"},
+			{Name: "way-drop-changeset", File: "way.go", Find: "\tw.Nodes[u.Index].ChangesetID = u.ChangesetID\n", Replace: "", ExpectRule: "U4", ExpectConstruct: "copy@Way.Nodes"},
+			{Name: "way-lat-conditional", File: "way.go", Find: "\tw.Nodes[u.Index].Lat = u.Lat\n", Replace: "\tif u.Lat != 0 {\n\t\tw.Nodes[u.Index].Lat = u.Lat\n\t}\n", ExpectRule: "U4", ExpectConstruct: "copy@Way.Nodes"},
+			{Name: "way-copy-to-local", File: "way.go", Find: "\tw.Nodes[u.Index].Version = u.Version\n\tw.Nodes[u.Index].ChangesetID = u.ChangesetID\n\tw.Nodes[u.Index].Lat = u.Lat\n\tw.Nodes[u.Index].Lon = u.Lon\n", Replace: "\tn := w.Nodes[u.Index]\n\tn.Version = u.Version\n\tn.ChangesetID = u.ChangesetID\n\tn.Lat = u.Lat\n\tn.Lon = u.Lon\n", ExpectRule: "U4", ExpectConstruct: "copy@"},
+			{Name: "way-early-success", File: "way.go", Find: "func (w *Way) ApplyUpdatesUpTo(t time.Time) error {\n", Replace: "func (w *Way) ApplyUpdatesUpTo(t time.Time) error {\n\tif t.Before(w.Timestamp) {\n\t\treturn nil\n\t}\n", ExpectRule: "U5", ExpectConstruct: "complete@(*Way).ApplyUpdatesUpTo"},
+			{Name: "rel-early-success", File: "relation.go", Find: "func (r *Relation) ApplyUpdatesUpTo(t time.Time) error {\n", Replace: "func (r *Relation) ApplyUpdatesUpTo(t time.Time) error {\n\tif t.Before(r.Timestamp) {\n\t\treturn nil\n\t}\n", ExpectRule: "U5", ExpectConstruct: "complete@(*Relation).ApplyUpdatesUpTo"},
+			{Name: "lsat-early-result", File: "way.go", Find: "func (w *Way) LineStringAt(t time.Time) orb.LineString {\n", Replace: "func (w *Way) LineStringAt(t time.Time) orb.LineString {\n\tif t.Before(w.Timestamp) {\n\t\treturn w.LineString()\n\t}\n", ExpectRule: "U5", ExpectConstruct: "complete@(*Way).LineStringAt"},
+			{Name: "way-first-only", File: "way.go", Find: "\t\tif err := w.applyUpdate(u); err != nil {\n\t\t\treturn err\n\t\t}\n\t}", Replace: "\t\treturn w.applyUpdate(u)\n\t}", ExpectRule: "U5", ExpectConstruct: "complete@(*Way).ApplyUpdatesUpTo"},
 		},
+		Benign: c15Benign,
 	})
 }
 
-// updatesLoop is a range loop over a value of type osm.Updates.
-type updatesLoop struct {
-	fi    *FuncInfo
-	rs    *ast.RangeStmt
-	uvar  types.Object // loop value variable
-	g     *cfg.CFG
-	head  *cfg.Block // KindRangeLoop block
-	cond  *cfg.Block // block ending in the too-late test (nil if none)
-	late  *cfg.Block // successor taken when u.Timestamp.After(t)
-	early *cfg.Block
-	condE ast.Expr
-}
-
-func isUpdatesType(t types.Type) bool {
-	if t == nil {
-		return false
-	}
-	if namedPath(t) == core.ModulePath+".Updates" {
-		return true
-	}
-	if sl, ok := t.Underlying().(*types.Slice); ok {
-		return namedPath(sl.Elem()) == core.ModulePath+".Update"
-	}
-	return false
-}
-
-// findUpdatesLoops finds every range loop over an Updates value in package osm.
-func findUpdatesLoops(p *core.Program) []*updatesLoop {
-	pk := p.Pkg("")
-	var out []*updatesLoop
-	for _, fi := range allFuncs(pk) {
-		fi := fi
-		var g *cfg.CFG
-		ast.Inspect(fi.Decl.Body, func(n ast.Node) bool {
-			rs, ok := n.(*ast.RangeStmt)
-			if !ok {
-				return true
-			}
-			if !isUpdatesType(pk.TypesInfo.TypeOf(rs.X)) {
-				return true
-			}
-			if g == nil {
-				g = newCFG(pk.TypesInfo, fi.Decl.Body)
-			}
-			ul := &updatesLoop{fi: fi, rs: rs, g: g}
-			if rs.Value != nil {
-				ul.uvar = objOf(pk.TypesInfo, rs.Value)
-			}
-			for _, b := range g.Blocks {
-				if b.Kind == cfg.KindRangeLoop && b.Stmt == rs {
-					ul.head = b
-				}
-			}
-			out = append(out, ul)
-			return true
-		})
-	}
-	return out
-}
-
-// lateTest classifies a condition as the too-late test on loop variable u against time parameter t.
-// It returns +1 when cond is true iff the update is too late, -1 when negated, 0 when it is not such a test.
-func lateTest(info *types.Info, cond ast.Expr, uvar types.Object) (int, ast.Expr) {
-	cond = ast.Unparen(cond)
-	if ue, ok := cond.(*ast.UnaryExpr); ok && ue.Op == token.NOT {
-		s, arg := lateTest(info, ue.X, uvar)
-		return -s, arg
-	}
-	call, ok := cond.(*ast.CallExpr)
-	if !ok || len(call.Args) != 1 {
-		return 0, nil
-	}
-	fn := callee(info, call)
-	sel, ok := ast.Unparen(call.Fun).(*ast.SelectorExpr)
-	if !ok {
-		return 0, nil
-	}
-	isUTS := func(e ast.Expr) bool {
-		f := fieldOf(info, e)
-		if f == nil || f.Name() != "Timestamp" {
-			return false
-		}
-		s := ast.Unparen(e).(*ast.SelectorExpr)
-		return uvar != nil && objOf(info, s.X) == uvar
-	}
-	switch {
-	case isMethod(fn, "time.Time", "After") && isUTS(sel.X):
-		return +1, call.Args[0] // u.Timestamp.After(t)
-	case isMethod(fn, "time.Time", "Before") && isUTS(call.Args[0]):
-		return +1, sel.X // t.Before(u.Timestamp)
-	}
-	return 0, nil
-}
-
-func (ul *updatesLoop) locate(info *types.Info) {
-	if ul.head == nil {
-		return
-	}
-	inLoop := func(n ast.Node) bool { return ul.rs.Body.Pos() <= n.Pos() && n.End() <= ul.rs.Body.End() }
-	for _, b := range ul.g.Blocks {
-		if !b.Live || len(b.Succs) != 2 || len(b.Nodes) == 0 {
-			continue
-		}
-		c, ok := b.Nodes[len(b.Nodes)-1].(ast.Expr)
-		if !ok || !inLoop(c) {
-			continue
-		}
-		s, arg := lateTest(info, c, ul.uvar)
-		if s == 0 {
-			continue
-		}
-		ul.cond, ul.condE = b, arg
-		if s > 0 {
-			ul.late, ul.early = b.Succs[0], b.Succs[1]
-		} else {
-			ul.late, ul.early = b.Succs[1], b.Succs[0]
-		}
-		return
-	}
-}
-
-// timeParam reports whether e is a parameter of the function of type time.Time.
-func timeParam(info *types.Info, fi *FuncInfo, e ast.Expr) bool {
-	o := objOf(info, e)
-	if o == nil || namedPath(o.Type()) != "time.Time" {
-		return false
-	}
-	sig := fi.Obj.Type().(*types.Signature)
-	for i := 0; i < sig.Params().Len(); i++ {
-		if sig.Params().At(i) == o {
-			return true
-		}
-	}
-	return false
-}
-
-func blockHasReturn(b *cfg.Block) bool {
-	for _, n := range b.Nodes {
-		if _, ok := n.(*ast.ReturnStmt); ok {
-			return true
-		}
-	}
-	return false
-}
-
-func c15U1(r *core.R) {
-	pk := r.P.Pkg("")
-	info := pk.TypesInfo
-	loops := findUpdatesLoops(r.P)
-	r.Stat("loops_over_Updates", len(loops))
-	want := map[string]bool{"(*Way).ApplyUpdatesUpTo": false, "(*Relation).ApplyUpdatesUpTo": false, "Updates.UpTo": false, "(*Way).LineStringAt": false}
-	for _, ul := range loops {
-		name := ul.fi.Name()
-		if _, ok := want[name]; ok {
-			want[name] = true
-		}
-		c := "loop@" + name
-		ul.locate(info)
-		if ul.head == nil {
-			r.Unknown(c, ul.rs.Pos(), "range loop not found in the control-flow graph")
-			continue
-		}
-		if ul.cond == nil {
-			r.Bad(c, ul.rs.Pos(), "loop over %s has no `u.Timestamp.After(t)` test on its loop variable: updates stamped after t are not excluded", src(r.P.Fset, ul.rs.X))
-			continue
-		}
-		if !timeParam(info, ul.fi, ul.condE) {
-			r.Bad(c, ul.cond.Nodes[len(ul.cond.Nodes)-1].Pos(), "the too-late test compares against %s, which is not the function's time parameter", src(r.P.Fset, ul.condE))
-			continue
-		}
-		// region reached on the too-late edge before coming back to the loop head
-		lateReg := reachableFrom([]*cfg.Block{ul.late}, func(b *cfg.Block) bool { return b == ul.head })
-		earlyReg := reachableFrom([]*cfg.Block{ul.early}, func(b *cfg.Block) bool { return b == ul.head })
-		bad := ""
-		for b := range lateReg {
-			if b == ul.head {
-				continue
-			}
-			if b.Kind == cfg.KindRangeDone && b.Stmt == ul.rs {
-				bad = "leaves the loop (break)"
-			} else if blockHasReturn(b) || len(b.Succs) == 0 {
-				bad = "leaves the function"
-			} else if !(ul.rs.Body.Pos() <= blockPos(b) && blockPos(b) <= ul.rs.Body.End()) && len(b.Nodes) > 0 {
-				bad = "leaves the loop"
-			} else if earlyReg[b] && len(b.Nodes) > 0 {
-				bad = "falls through into the code that handles in-time updates (" + r.P.Rel(b.Nodes[0].Pos()) + ")"
-			}
-			if bad != "" {
-				break
-			}
-		}
-		if bad == "" && !lateReg[ul.head] {
-			bad = "never returns to the loop head"
-		}
-		if bad != "" {
-			r.Bad(c, ul.cond.Nodes[len(ul.cond.Nodes)-1].Pos(), "when `%s` holds the path %s; later entries of the list (stored in index order, not time order) stamped at or before t are then not handled",
-				src(r.P.Fset, ul.cond.Nodes[len(ul.cond.Nodes)-1]), bad)
-			continue
-		}
-		r.OK(c, ul.cond.Nodes[len(ul.cond.Nodes)-1].Pos(), "every path from the true edge of `%s` returns to the loop head without break/return and without touching the in-time handling (%d block(s) on the edge)",
-			src(r.P.Fset, ul.cond.Nodes[len(ul.cond.Nodes)-1]), len(lateReg)-1)
-	}
-	for n, ok := range want {
-		if !ok {
-			r.Anchor("loop over osm.Updates in " + n)
-		}
-	}
-}
-
-func blockPos(b *cfg.Block) token.Pos {
-	if len(b.Nodes) == 0 {
-		return token.NoPos
-	}
-	return b.Nodes[0].Pos()
-}
-
-func c15U2(r *core.R) {
-	pk := r.P.Pkg("")
-	info := pk.TypesInfo
-	for _, ul := range findUpdatesLoops(r.P) {
-		if ul.fi.Obj.Name() != "ApplyUpdatesUpTo" {
-			continue
-		}
-		name := ul.fi.Name()
-		ul.locate(info)
-		if ul.cond == nil {
-			r.Bad("pending@"+name, ul.rs.Pos(), "no too-late test, cannot identify the pending edge")
-			continue
-		}
-		lateReg := reachableFrom([]*cfg.Block{ul.late}, func(b *cfg.Block) bool { return b == ul.head })
-		earlyReg := reachableFrom([]*cfg.Block{ul.early}, func(b *cfg.Block) bool { return b == ul.head })
-		// 1. on the late edge: X = append(X, u)
-		var pend types.Object
-		var pendPos token.Pos
-		for b := range lateReg {
-			if b == ul.head {
-				continue
-			}
-			for _, n := range b.Nodes {
-				as, ok := n.(*ast.AssignStmt)
-				if !ok || len(as.Lhs) != 1 || len(as.Rhs) != 1 {
-					continue
-				}
-				call, ok := as.Rhs[0].(*ast.CallExpr)
-				if !ok || builtinName(info, call) != "append" || len(call.Args) != 2 || call.Ellipsis.IsValid() {
-					continue
-				}
-				if objOf(info, as.Lhs[0]) != nil && objOf(info, as.Lhs[0]) == objOf(info, call.Args[0]) && objOf(info, call.Args[1]) == ul.uvar {
-					pend = objOf(info, as.Lhs[0])
-					pendPos = as.Pos()
-				}
-			}
-		}
-		if pend == nil {
-			r.Bad("pending@"+name, ul.cond.Nodes[len(ul.cond.Nodes)-1].Pos(), "the too-late edge does not append the update to a pending list (`X = append(X, u)`): later updates are lost")
-			continue
-		}
-		// 2. X assigned nowhere else; recv.Updates = X after the loop
-		nAssign := 0
-		var storePos token.Pos
-		ast.Inspect(ul.fi.Decl.Body, func(n ast.Node) bool {
-			as, ok := n.(*ast.AssignStmt)
-			if !ok {
-				return true
-			}
-			for i, l := range as.Lhs {
-				if objOf(info, l) == pend {
-					nAssign++
-				}
-				if f := fieldOf(info, l); f != nil && f.Name() == "Updates" && i < len(as.Rhs) && objOf(info, as.Rhs[i]) == pend && as.Pos() > ul.rs.End() {
-					storePos = as.Pos()
-				}
-			}
-			return true
-		})
-		switch {
-		case nAssign != 1:
-			r.Bad("pending@"+name, pendPos, "pending list %s is assigned at %d sites; exactly one (`%s = append(%s, u)` on the too-late edge) keeps it equal to the skipped updates in loop order", pend.Name(), nAssign, pend.Name(), pend.Name())
-		case !storePos.IsValid():
-			r.Bad("pending@"+name, pendPos, "pending list %s is never stored back into the receiver's Updates after the loop", pend.Name())
-		default:
-			r.OK("pending@"+name, pendPos, "too-late edge appends u to %s (only assignment), stored into .Updates at %s after the loop", pend.Name(), r.P.Rel(storePos))
-		}
-		// 3. in-time edge calls recv.applyUpdate(u) and returns its error when non-nil
-		okApply := false
-		var applyPos token.Pos
-		for b := range earlyReg {
-			if b == ul.head {
-				continue
-			}
-			for _, n := range b.Nodes {
-				ast.Inspect(n, func(x ast.Node) bool {
-					call, ok := x.(*ast.CallExpr)
-					if !ok {
-						return true
-					}
-					if fn := callee(info, call); fn != nil && fn.Name() == "applyUpdate" && len(call.Args) == 1 && objOf(info, call.Args[0]) == ul.uvar {
-						applyPos = call.Pos()
-					}
-					return true
-				})
-			}
-		}
-		if applyPos.IsValid() {
-			// error propagation: the call is the init of an `if err := ...; err != nil { return err }`
-			par := parentsOf(r.P, ul.fi)
-			var callNode ast.Node
-			ast.Inspect(ul.fi.Decl.Body, func(n ast.Node) bool {
-				if c, ok := n.(*ast.CallExpr); ok && c.Pos() == applyPos {
-					callNode = c
-				}
-				return true
-			})
-			okApply = errReturnedAfter(info, par, callNode)
-		}
-		if !applyPos.IsValid() {
-			r.Bad("apply@"+name, ul.rs.Pos(), "the in-time edge does not call applyUpdate(u)")
-		} else if !okApply {
-			r.Bad("apply@"+name, applyPos, "the error of applyUpdate(u) is not returned when non-nil")
-		} else {
-			r.OK("apply@"+name, applyPos, "in-time edge calls applyUpdate(u); `err != nil` returns it")
-		}
-	}
-}
-
-// errReturnedAfter recognises the idioms
-//
-//	if err := CALL; err != nil { return ..., err }
-//	err := CALL (or =) ; if err != nil { return ..., err }
-//
-// for the call node.
-func errReturnedAfter(info *types.Info, par map[ast.Node]ast.Node, call ast.Node) bool {
-	if call == nil {
-		return false
-	}
-	as, ok := par[call].(*ast.AssignStmt)
-	if !ok {
-		return false
-	}
-	var errObj types.Object
-	for _, l := range as.Lhs {
-		if o := objOf(info, l); o != nil && types.Identical(o.Type(), types.Universe.Lookup("error").Type()) {
-			errObj = o
-		}
-	}
-	if errObj == nil {
-		return false
-	}
-	isErrTest := func(ifs *ast.IfStmt) bool {
-		be, ok := ast.Unparen(ifs.Cond).(*ast.BinaryExpr)
-		if !ok || be.Op != token.NEQ {
-			return false
-		}
-		if objOf(info, be.X) != errObj {
-			return false
-		}
-		if id, ok := ast.Unparen(be.Y).(*ast.Ident); !ok || id.Name != "nil" {
-			return false
-		}
-		if len(ifs.Body.List) == 0 {
-			return false
-		}
-		ret, ok := ifs.Body.List[len(ifs.Body.List)-1].(*ast.ReturnStmt)
-		if !ok || len(ret.Results) == 0 {
-			return false
-		}
-		last := ret.Results[len(ret.Results)-1]
-		return usesObj(info, last, errObj)
-	}
-	switch p := par[as].(type) {
-	case *ast.IfStmt:
-		if p.Init == as {
-			return isErrTest(p)
-		}
-	case *ast.BlockStmt:
-		for i, s := range p.List {
-			if s == as && i+1 < len(p.List) {
-				if ifs, ok := p.List[i+1].(*ast.IfStmt); ok {
-					return isErrTest(ifs)
-				}
-			}
-		}
-	}
-	return false
-}
-
-// sameExpr compares two side-effect-free expressions structurally through the objects they mention.
-func sameExpr(info *types.Info, a, b ast.Expr) bool {
-	a, b = ast.Unparen(a), ast.Unparen(b)
-	switch x := a.(type) {
-	case *ast.Ident:
-		y, ok := b.(*ast.Ident)
-		return ok && objOf(info, x) != nil && objOf(info, x) == objOf(info, y)
-	case *ast.SelectorExpr:
-		y, ok := b.(*ast.SelectorExpr)
-		if !ok {
-			return false
-		}
-		sx, sy := info.Selections[x], info.Selections[y]
-		if sx == nil || sy == nil || sx.Obj() != sy.Obj() {
-			return false
-		}
-		return sameExpr(info, x.X, y.X)
-	case *ast.IndexExpr:
-		y, ok := b.(*ast.IndexExpr)
-		return ok && sameExpr(info, x.X, y.X) && sameExpr(info, x.Index, y.Index)
-	case *ast.BasicLit:
-		y, ok := b.(*ast.BasicLit)
-		return ok && x.Value == y.Value
-	case *ast.StarExpr:
-		y, ok := b.(*ast.StarExpr)
-		return ok && sameExpr(info, x.X, y.X)
-	}
-	return false
-}
-
-// rootObj returns the variable at the root of a selector/index chain.
-func rootObj(info *types.Info, e ast.Expr) types.Object {
-	for {
-		switch x := ast.Unparen(e).(type) {
-		case *ast.Ident:
-			return objOf(info, x)
-		case *ast.SelectorExpr:
-			e = x.X
-		case *ast.IndexExpr:
-			e = x.X
-		case *ast.StarExpr:
-			e = x.X
-		case *ast.SliceExpr:
-			e = x.X
-		default:
-			return nil
-		}
-	}
-}
-
-// isUpdateIndex reports whether e is `<v>.Index` with v of type osm.Update.
-func isUpdateIndex(info *types.Info, e ast.Expr) bool {
-	f := fieldOf(info, e)
-	if f == nil || f.Name() != "Index" {
-		return false
-	}
-	sel := ast.Unparen(e).(*ast.SelectorExpr)
-	return namedPath(info.TypeOf(sel.X)) == core.ModulePath+".Update"
-}
-
-func c15U3(r *core.R) {
-	pk := r.P.Pkg("")
-	info := pk.TypesInfo
-	nfun := 0
-	for _, fi := range allFuncs(pk) {
-		var uses []*ast.IndexExpr
-		ast.Inspect(fi.Decl.Body, func(n ast.Node) bool {
-			if ix, ok := n.(*ast.IndexExpr); ok && isUpdateIndex(info, ix.Index) {
-				uses = append(uses, ix)
-			}
-			return true
-		})
-		if len(uses) == 0 {
-			continue
-		}
-		nfun++
-		g := newCFG(info, fi.Decl.Body)
-		dom := dominators(g)
-		for _, ix := range uses {
-			c := "index@" + fi.Name() + " " + src(r.P.Fset, ix)
-			ub, _ := blockOf(g, ix.Pos())
-			if ub == nil {
-				r.Unknown(c, ix.Pos(), "use not located in the control-flow graph")
-				continue
-			}
-			proved := false
-			var why string
-			for _, b := range g.Blocks {
-				if !b.Live || len(b.Succs) != 2 || len(b.Nodes) == 0 || !dom[ub][b] || b == ub {
-					continue
-				}
-				be, ok := ast.Unparen(lastExpr(b)).(*ast.BinaryExpr)
-				if !ok {
-					continue
-				}
-				// idx >= len(X)   or   len(X) <= idx
-				var idx, lenArg ast.Expr
-				if be.Op == token.GEQ {
-					idx, lenArg = be.X, lenCallArg(info, be.Y)
-				} else if be.Op == token.LEQ {
-					idx, lenArg = be.Y, lenCallArg(info, be.X)
-				}
-				if lenArg == nil || !sameExpr(info, idx, ix.Index) || !sameExpr(info, lenArg, ix.X) {
-					continue
-				}
-				// the use must not be reachable from the true (out-of-range) edge without passing the test again
-				tr := reachableFrom([]*cfg.Block{b.Succs[0]}, func(x *cfg.Block) bool { return x == b })
-				if tr[ub] {
-					why = "the use is reachable from the out-of-range edge of `" + src(r.P.Fset, be) + "`"
-					continue
-				}
-				// no reassignment of the indexed container or the update between guard and use
-				if n := countAssignsTo(info, fi.Decl.Body, rootObj(info, ix.X), be.Pos(), ix.Pos()); n > 0 {
-					why = "the indexed value is reassigned between the guard and the use"
-					continue
-				}
-				proved = true
-				r.OK(c, ix.Pos(), "dominated by `%s` (%s); the out-of-range edge does not reach the use", src(r.P.Fset, be), r.P.Rel(be.Pos()))
-				break
-			}
-			if !proved {
-				if why == "" {
-					why = "no dominating test of the form `" + src(r.P.Fset, ix.Index) + " >= len(" + src(r.P.Fset, ix.X) + ")`"
-				}
-				r.Bad(c, ix.Pos(), "%s: an update index beyond the child list indexes memory instead of being reported", why)
-			}
-		}
-	}
-	r.Stat("functions_indexing_by_update_index", nfun)
-}
-
-func lastExpr(b *cfg.Block) ast.Expr {
-	if len(b.Nodes) == 0 {
-		return nil
-	}
-	e, _ := b.Nodes[len(b.Nodes)-1].(ast.Expr)
-	return e
-}
-
-func lenCallArg(info *types.Info, e ast.Expr) ast.Expr {
-	call, ok := ast.Unparen(e).(*ast.CallExpr)
-	if !ok || builtinName(info, call) != "len" || len(call.Args) != 1 {
-		return nil
-	}
-	return call.Args[0]
-}
-
-// countAssignsTo counts assignments whose LHS root is obj between two positions.
-func countAssignsTo(info *types.Info, body ast.Node, obj types.Object, from, to token.Pos) int {
-	n := 0
-	ast.Inspect(body, func(x ast.Node) bool {
-		as, ok := x.(*ast.AssignStmt)
-		if !ok || as.Pos() < from || as.Pos() > to {
-			return true
-		}
-		for _, l := range as.Lhs {
-			if id, ok := ast.Unparen(l).(*ast.Ident); ok && objOf(info, id) == obj {
-				n++
-			}
-		}
-		return true
-	})
-	return n
-}
-
-// fieldCopies collects assignments `<...>.F = src.G` / `<...>.F op= ...` in a function whose LHS
-// selects a field of the named target type. Returned map: F -> source field name ("" when the RHS is not a plain field of srcObj).
-type fieldCopy struct {
-	dst, src string
-	pos      token.Pos
-	tok      token.Token
-	stmt     *ast.AssignStmt
-}
-
-func collectFieldCopies(info *types.Info, body ast.Node, targetTypes map[string]bool, srcObj types.Object) []fieldCopy {
-	var out []fieldCopy
-	ast.Inspect(body, func(n ast.Node) bool {
-		as, ok := n.(*ast.AssignStmt)
-		if !ok {
-			return true
-		}
-		for i, l := range as.Lhs {
-			f := fieldOf(info, l)
-			if f == nil {
-				continue
-			}
-			sel := ast.Unparen(l).(*ast.SelectorExpr)
-			if !targetTypes[namedPath(info.TypeOf(sel.X))] {
-				continue
-			}
-			fc := fieldCopy{dst: f.Name(), pos: as.Pos(), tok: as.Tok, stmt: as}
-			if i < len(as.Rhs) {
-				if sf := fieldOf(info, as.Rhs[i]); sf != nil {
-					rs := ast.Unparen(as.Rhs[i]).(*ast.SelectorExpr)
-					if srcObj == nil || rootObj(info, rs.X) == srcObj {
-						fc.src = sf.Name()
-					}
-				}
-			}
-			out = append(out, fc)
-		}
-		return true
-	})
-	return out
-}
-
-func c15U4(r *core.R) {
-	pk := r.P.Pkg("")
-	info := pk.TypesInfo
-	expect := []string{"ChangesetID", "Lat", "Lon", "Version"}
-	for _, spec := range []struct{ fn, target string }{
-		{"(*Way).applyUpdate", core.ModulePath + ".WayNode"},
-		{"(*Relation).applyUpdate", core.ModulePath + ".Member"},
-	} {
-		fi := findFunc(pk, spec.fn)
-		if fi == nil {
-			r.Anchor(spec.fn)
-			continue
-		}
-		sig := fi.Obj.Type().(*types.Signature)
-		if sig.Params().Len() != 1 {
-			r.Anchor(spec.fn + " (single Update parameter)")
-			continue
-		}
-		u := sig.Params().At(0)
-		copies := collectFieldCopies(info, fi.Decl.Body, map[string]bool{spec.target: true}, u)
-		got := map[string]fieldCopy{}
-		c := "copy@" + spec.fn
-		bad := false
-		par := parentsOf(r.P, fi)
-		for _, fc := range copies {
-			if fc.dst == "Orientation" {
-				// must be `*= -1` under `if u.Reverse`
-				ifs, _ := enclosing(par, fc.stmt, func(n ast.Node) bool { _, ok := n.(*ast.IfStmt); return ok }).(*ast.IfStmt)
-				okRev := false
-				if ifs != nil {
-					if f := fieldOf(info, ifs.Cond); f != nil && f.Name() == "Reverse" && rootObj(info, ifs.Cond) == u && fc.stmt.Pos() >= ifs.Body.Pos() && fc.stmt.End() <= ifs.Body.End() {
-						okRev = true
-					}
-				}
-				neg := false
-				if fc.tok == token.MUL_ASSIGN && len(fc.stmt.Rhs) == 1 {
-					if v, ok := constInt(info, fc.stmt.Rhs[0]); ok && v == -1 {
-						neg = true
-					}
-				}
-				if okRev && neg {
-					r.OK("flip@"+spec.fn+" Orientation", fc.pos, "Orientation *= -1 only under `if u.Reverse`")
-				} else {
-					r.Bad("flip@"+spec.fn+" Orientation", fc.pos, "Orientation is changed by `%s`; it must be multiplied by -1 exactly when u.Reverse holds", src(r.P.Fset, fc.stmt))
-				}
-				continue
-			}
-			if fc.tok != token.ASSIGN || fc.src != fc.dst {
-				r.Bad(c+" "+fc.dst, fc.pos, "`%s`: child field %s must be copied from the same-named update field", src(r.P.Fset, fc.stmt), fc.dst)
-				bad = true
-				continue
-			}
-			if _, dup := got[fc.dst]; dup {
-				r.Bad(c+" "+fc.dst, fc.pos, "field %s assigned twice", fc.dst)
-				bad = true
-			}
-			got[fc.dst] = fc
-		}
-		var names []string
-		for k := range got {
-			names = append(names, k)
-		}
-		sort.Strings(names)
-		if !bad {
-			if strings.Join(names, ",") == strings.Join(expect, ",") {
-				r.OK(c, fi.Decl.Pos(), "assigns exactly {%s} of the indexed child, each from the same-named field of the update", strings.Join(names, ","))
-			} else {
-				r.Bad(c, fi.Decl.Pos(), "assigns {%s}; the update carries {%s} for the child", strings.Join(names, ","), strings.Join(expect, ","))
-			}
-		}
-		if spec.target == core.ModulePath+".Member" {
-			seen := false
-			for _, fc := range copies {
-				if fc.dst == "Orientation" {
-					seen = true
-				}
-			}
-			if !seen {
-				r.Bad("flip@"+spec.fn+" Orientation", fi.Decl.Pos(), "no orientation flip for reversed way members")
-			}
-		}
-	}
-	// LineStringAt: ls[u.Index][k] = u.F where Point() puts F at slot k
-	slots := pointSlots(r, "WayNode.Point")
-	fi := findFunc(pk, "(*Way).LineStringAt")
-	if fi == nil {
-		r.Anchor("(*Way).LineStringAt")
-		return
-	}
-	if slots == nil {
-		return
-	}
-	found := map[int64]string{}
-	ast.Inspect(fi.Decl.Body, func(n ast.Node) bool {
-		as, ok := n.(*ast.AssignStmt)
-		if !ok || len(as.Lhs) != 1 || len(as.Rhs) != 1 {
-			return true
-		}
-		outer, ok := ast.Unparen(as.Lhs[0]).(*ast.IndexExpr)
-		if !ok {
-			return true
-		}
-		inner, ok := ast.Unparen(outer.X).(*ast.IndexExpr)
-		if !ok || !isUpdateIndex(info, inner.Index) {
-			return true
-		}
-		k, ok := constInt(info, outer.Index)
-		if !ok {
-			r.Unknown("slot@LineStringAt", as.Pos(), "non-constant point slot in `%s`", src(r.P.Fset, as))
-			return true
-		}
-		sf := fieldOf(info, as.Rhs[0])
-		name := ""
-		if sf != nil && namedPath(info.TypeOf(ast.Unparen(as.Rhs[0]).(*ast.SelectorExpr).X)) == core.ModulePath+".Update" &&
-			sameExpr(info, ast.Unparen(as.Rhs[0]).(*ast.SelectorExpr).X, ast.Unparen(inner.Index).(*ast.SelectorExpr).X) {
-			name = sf.Name()
-		}
-		found[k] = name
-		c := "slot@(*Way).LineStringAt [" + src(r.P.Fset, outer.Index) + "]"
-		if name == slots[k] {
-			r.OK(c, as.Pos(), "point slot %d receives u.%s, the field WayNode.Point() stores in slot %d", k, name, k)
-		} else {
-			r.Bad(c, as.Pos(), "`%s`: WayNode.Point() stores %s in slot %d, so geometry-at-time disagrees with applying the update", src(r.P.Fset, as), slots[k], k)
-		}
-		return true
-	})
-	for k, f := range slots {
-		if _, ok := found[k]; !ok {
-			r.Bad("slot@(*Way).LineStringAt ["+string(rune('0'+k))+"]", fi.Decl.Pos(), "LineStringAt never writes point slot %d (%s) from the update", k, f)
-		}
-	}
-}
-
-// pointSlots derives slot -> field name from the composite literal returned by a Point() method.
-func pointSlots(r *core.R, fn string) map[int64]string {
-	pk := r.P.Pkg("")
-	fi := findFunc(pk, fn)
-	if fi == nil {
-		r.Anchor(fn)
-		return nil
-	}
-	var res map[int64]string
-	ast.Inspect(fi.Decl.Body, func(n ast.Node) bool {
-		ret, ok := n.(*ast.ReturnStmt)
-		if !ok || len(ret.Results) != 1 {
-			return true
-		}
-		cl, ok := ast.Unparen(ret.Results[0]).(*ast.CompositeLit)
-		if !ok {
-			return true
-		}
-		res = map[int64]string{}
-		for i, e := range cl.Elts {
-			if f := fieldOf(pk.TypesInfo, e); f != nil {
-				res[int64(i)] = f.Name()
-			}
-		}
-		return true
-	})
-	if len(res) != 2 {
-		r.Anchor(fn + " returning orb.Point{a.X, a.Y}")
-		return nil
-	}
-	return res
+// c15Benign: behaviour-preserving rewrites of the anchored code (one overlay edit each); the rules must stay silent.
+var c15Benign = []core.Mutant{
+	// 1 extract: predicate helper for the too-late test
+	{Name: "upto-predicate-helper", File: "update.go",
+		Find:    "func (us Updates) UpTo(t time.Time) Updates {\n\tvar result Updates\n\n\tfor _, u := range us {\n\t\tif u.Timestamp.After(t) {",
+		Replace: "func (u Update) laterThan(cutoff time.Time) bool { return cutoff.Before(u.Timestamp) }\n\nfunc (us Updates) UpTo(t time.Time) Updates {\n\tvar result Updates\n\n\tfor _, u := range us {\n\t\tif u.laterThan(t) {"},
+	// 1 extract: the whole scan moves into an unexported helper that returns the pending list
+	{Name: "way-scan-extracted", File: "way.go",
+		Find:    "func (w *Way) ApplyUpdatesUpTo(t time.Time) error {\n\tvar notApplied []Update\n\tfor _, u := range w.Updates {\n\t\tif u.Timestamp.After(t) {\n\t\t\tnotApplied = append(notApplied, u)\n\t\t\tcontinue\n\t\t}\n\n\t\tif err := w.applyUpdate(u); err != nil {\n\t\t\treturn err\n\t\t}\n\t}\n\n\tw.Updates = notApplied\n\treturn nil\n}",
+		Replace: "func (w *Way) ApplyUpdatesUpTo(t time.Time) error {\n\tlater, err := w.applyDue(t)\n\tif err != nil {\n\t\treturn err\n\t}\n\n\tw.Updates = later\n\treturn nil\n}\n\nfunc (w *Way) applyDue(limit time.Time) ([]Update, error) {\n\tvar later []Update\n\tfor _, up := range w.Updates {\n\t\tif up.Timestamp.After(limit) {\n\t\t\tlater = append(later, up)\n\t\t\tcontinue\n\t\t}\n\n\t\tif err := w.applyUpdate(up); err != nil {\n\t\t\treturn nil, err\n\t\t}\n\t}\n\n\treturn later, nil\n}"},
+	// 1 inline: applyUpdate inlined into the loop
+	{Name: "way-apply-inlined", File: "way.go",
+		Find:    "\t\tif err := w.applyUpdate(u); err != nil {\n\t\t\treturn err\n\t\t}\n\t}\n\n\tw.Updates = notApplied",
+		Replace: "\t\tif u.Index >= len(w.Nodes) {\n\t\t\treturn &UpdateIndexOutOfRangeError{Index: u.Index}\n\t\t}\n\n\t\tnode := &w.Nodes[u.Index]\n\t\tnode.Version = u.Version\n\t\tnode.ChangesetID = u.ChangesetID\n\t\tnode.Lat = u.Lat\n\t\tnode.Lon = u.Lon\n\t}\n\n\tw.Updates = notApplied"},
+	// 1 extract: range test of applyUpdate moves into a helper returning the error
+	{Name: "rel-guard-helper", File: "relation.go",
+		Find:    "func (r *Relation) applyUpdate(u Update) error {\n\tif u.Index >= len(r.Members) {\n\t\treturn &UpdateIndexOutOfRangeError{Index: u.Index}\n\t}\n",
+		Replace: "func (r *Relation) hasMember(i int) bool { return i < len(r.Members) }\n\nfunc (r *Relation) applyUpdate(u Update) error {\n\tif !r.hasMember(u.Index) {\n\t\treturn &UpdateIndexOutOfRangeError{Index: u.Index}\n\t}\n"},
+	// 2 if -> tagless switch
+	{Name: "rel-switch-form", File: "relation.go",
+		Find:    "\t\tif u.Timestamp.After(t) {\n\t\t\tnotApplied = append(notApplied, u)\n\t\t\tcontinue\n\t\t}\n\n\t\tif err := r.applyUpdate(u); err != nil {\n\t\t\treturn err\n\t\t}\n",
+		Replace: "\t\tswitch {\n\t\tcase u.Timestamp.After(t):\n\t\t\tnotApplied = append(notApplied, u)\n\t\tdefault:\n\t\t\tif err := r.applyUpdate(u); err != nil {\n\t\t\t\treturn err\n\t\t\t}\n\t\t}\n"},
+	// 2 inverted branch + nesting instead of early continue, merged guards
+	{Name: "lsat-nested", File: "way.go",
+		Find:    "\t\tif u.Timestamp.After(t) {\n\t\t\tcontinue\n\t\t}\n\n\t\tif u.Index >= len(ls) {\n\t\t\tcontinue\n\t\t}\n\n\t\tls[u.Index][0] = u.Lon\n\t\tls[u.Index][1] = u.Lat\n",
+		Replace: "\t\tif !u.Timestamp.After(t) && u.Index < len(ls) {\n\t\t\tls[u.Index][0] = u.Lon\n\t\t\tls[u.Index][1] = u.Lat\n\t\t}\n"},
+	// 2 Before||Equal spelling of "not after", if/else
+	{Name: "upto-before-or-equal", File: "update.go",
+		Find:    "\t\tif u.Timestamp.After(t) {\n\t\t\tcontinue\n\t\t}\n\n\t\tresult = append(result, u)\n",
+		Replace: "\t\tif u.Timestamp.Before(t) || u.Timestamp.Equal(t) {\n\t\t\tresult = append(result, u)\n\t\t} else {\n\t\t\tcontinue\n\t\t}\n"},
+	// 3 pointer alias + boolean local
+	{Name: "lsat-pointer-alias", File: "way.go",
+		Find:    "\t\tif u.Timestamp.After(t) {\n\t\t\tcontinue\n\t\t}\n\n\t\tif u.Index >= len(ls) {\n\t\t\tcontinue\n\t\t}\n\n\t\tls[u.Index][0] = u.Lon\n\t\tls[u.Index][1] = u.Lat\n",
+		Replace: "\t\ttooLate := u.Timestamp.After(t)\n\t\tif tooLate {\n\t\t\tcontinue\n\t\t}\n\n\t\tidx := u.Index\n\t\tif idx >= len(ls) {\n\t\t\tcontinue\n\t\t}\n\n\t\tpt := &ls[idx]\n\t\tpt[0] = u.Lon\n\t\tpt[1] = u.Lat\n"},
+	// 3 named constants for the slots, whole-point assignment
+	{Name: "lsat-whole-point", File: "way.go",
+		Find:    "\t\tls[u.Index][0] = u.Lon\n\t\tls[u.Index][1] = u.Lat\n",
+		Replace: "\t\tls[u.Index] = orb.Point{u.Lon, u.Lat}\n"},
+	{Name: "lsat-named-slots", File: "way.go",
+		Find:    "\t\tls[u.Index][0] = u.Lon\n\t\tls[u.Index][1] = u.Lat\n",
+		Replace: "\t\tconst (\n\t\t\tlonSlot = iota\n\t\t\tlatSlot\n\t\t)\n\t\tls[u.Index][latSlot] = u.Lat\n\t\tls[u.Index][lonSlot] = u.Lon\n"},
+	// 3 renamed locals + index loop with element pointer
+	{Name: "rel-index-loop", File: "relation.go",
+		Find:    "\tvar notApplied []Update\n\tfor _, u := range r.Updates {\n\t\tif u.Timestamp.After(t) {\n\t\t\tnotApplied = append(notApplied, u)\n\t\t\tcontinue\n\t\t}\n\n\t\tif err := r.applyUpdate(u); err != nil {\n\t\t\treturn err\n\t\t}\n\t}\n\n\tr.Updates = notApplied\n",
+		Replace: "\tvar keep []Update\n\tfor i := range r.Updates {\n\t\tup := &r.Updates[i]\n\t\tif up.Timestamp.After(t) {\n\t\t\tkeep = append(keep, *up)\n\t\t\tcontinue\n\t\t}\n\n\t\tif err := r.applyUpdate(*up); err != nil {\n\t\t\treturn err\n\t\t}\n\t}\n\n\tr.Updates = keep\n"},
+	{Name: "upto-classic-for", File: "update.go",
+		Find:    "\tfor _, u := range us {\n\t\tif u.Timestamp.After(t) {\n\t\t\tcontinue\n\t\t}\n\n\t\tresult = append(result, u)\n\t}\n",
+		Replace: "\tfor i := 0; i < len(us); i++ {\n\t\tif t.Before(us[i].Timestamp) {\n\t\t\tcontinue\n\t\t}\n\n\t\tresult = append(result, us[i])\n\t}\n"},
+	// 2 if-init split, err variable, inverted error test
+	{Name: "way-err-else", File: "way.go",
+		Find:    "\t\tif err := w.applyUpdate(u); err != nil {\n\t\t\treturn err\n\t\t}\n\t}\n\n\tw.Updates = notApplied",
+		Replace: "\t\terr := w.applyUpdate(u)\n\t\tif err == nil {\n\t\t\tcontinue\n\t\t}\n\n\t\treturn err\n\t}\n\n\tw.Updates = notApplied"},
+	// 4 reordered independent statements
+	{Name: "rel-copies-reordered", File: "relation.go",
+		Find:    "\tr.Members[u.Index].Version = u.Version\n\tr.Members[u.Index].ChangesetID = u.ChangesetID\n\tr.Members[u.Index].Lat = u.Lat\n\tr.Members[u.Index].Lon = u.Lon\n\n\tif u.Reverse {\n\t\tr.Members[u.Index].Orientation *= -1\n\t}\n",
+		Replace: "\tmembers := r.Members\n\tif u.Reverse {\n\t\tmembers[u.Index].Orientation = -members[u.Index].Orientation\n\t}\n\n\tmembers[u.Index].Lon = u.Lon\n\tmembers[u.Index].Lat = u.Lat\n\tmembers[u.Index].ChangesetID = u.ChangesetID\n\tmembers[u.Index].Version = u.Version\n"},
+	{Name: "lsat-guards-swapped", File: "way.go",
+		Find:    "\t\tif u.Timestamp.After(t) {\n\t\t\tcontinue\n\t\t}\n\n\t\tif u.Index >= len(ls) {\n\t\t\tcontinue\n\t\t}\n",
+		Replace: "\t\tif len(ls) <= u.Index {\n\t\t\tcontinue\n\t\t}\n\n\t\tif u.Timestamp.After(t) {\n\t\t\tcontinue\n\t\t}\n"},
+	// reuse of the verified filter as the source of the scan
+	{Name: "lsat-filtered-source", File: "way.go",
+		Find:    "\tfor _, u := range w.Updates {\n\t\tif u.Timestamp.After(t) {\n\t\t\tcontinue\n\t\t}\n\n\t\tif u.Index >= len(ls) {",
+		Replace: "\tfor _, u := range w.Updates.UpTo(t) {\n\t\tif u.Index >= len(ls) {"},
+	// early exit when there is nothing to scan; preallocated-empty pending list is NOT used (changes nil-ness)
+	{Name: "way-empty-shortcut", File: "way.go",
+		Find:    "func (w *Way) ApplyUpdatesUpTo(t time.Time) error {\n",
+		Replace: "func (w *Way) ApplyUpdatesUpTo(t time.Time) error {\n\tif len(w.Updates) == 0 {\n\t\treturn nil\n\t}\n\n"},
+	// guard of applyUpdate inverted: success path nested
+	{Name: "way-guard-inverted", File: "way.go",
+		Find:    "\tif u.Index >= len(w.Nodes) {\n\t\treturn &UpdateIndexOutOfRangeError{Index: u.Index}\n\t}\n\n\tw.Nodes[u.Index].Version = u.Version\n\tw.Nodes[u.Index].ChangesetID = u.ChangesetID\n\tw.Nodes[u.Index].Lat = u.Lat\n\tw.Nodes[u.Index].Lon = u.Lon\n\n\treturn nil\n",
+		Replace: "\tif i := u.Index; i < len(w.Nodes) {\n\t\tw.Nodes[i].Version = u.Version\n\t\tw.Nodes[i].ChangesetID = u.ChangesetID\n\t\tw.Nodes[i].Lat = u.Lat\n\t\tw.Nodes[i].Lon = u.Lon\n\t\treturn nil\n\t}\n\n\treturn &UpdateIndexOutOfRangeError{Index: u.Index}\n"},
+	// named error result with bare returns
+	{Name: "rel-named-result", File: "relation.go",
+		Find:    "func (r *Relation) ApplyUpdatesUpTo(t time.Time) error {\n\tvar notApplied []Update\n\tfor _, u := range r.Updates {\n\t\tif u.Timestamp.After(t) {\n\t\t\tnotApplied = append(notApplied, u)\n\t\t\tcontinue\n\t\t}\n\n\t\tif err := r.applyUpdate(u); err != nil {\n\t\t\treturn err\n\t\t}\n\t}\n\n\tr.Updates = notApplied\n\treturn nil\n}",
+		Replace: "func (r *Relation) ApplyUpdatesUpTo(t time.Time) (err error) {\n\tvar notApplied []Update\n\tfor _, u := range r.Updates {\n\t\tif u.Timestamp.After(t) {\n\t\t\tnotApplied = append(notApplied, u)\n\t\t\tcontinue\n\t\t}\n\n\t\tif err = r.applyUpdate(u); err != nil {\n\t\t\treturn\n\t\t}\n\t}\n\n\tr.Updates = notApplied\n\treturn nil\n}"},
+	// the update is handed over by pointer
+	{Name: "way-apply-by-pointer", File: "way.go",
+		Find:    "\t\tif err := w.applyUpdate(u); err != nil {\n\t\t\treturn err\n\t\t}\n\t}\n\n\tw.Updates = notApplied\n\treturn nil\n}\n\n// applyUpdate will modify the current way and dictated by the given update.\n// Will return UpdateIndexOutOfRangeError if the update index is too large.\nfunc (w *Way) applyUpdate(u Update) error {",
+		Replace: "\t\tif err := w.applyUpdate(&u); err != nil {\n\t\t\treturn err\n\t\t}\n\t}\n\n\tw.Updates = notApplied\n\treturn nil\n}\n\n// applyUpdate will modify the current way and dictated by the given update.\n// Will return UpdateIndexOutOfRangeError if the update index is too large.\nfunc (w *Way) applyUpdate(u *Update) error {"},
+	// two-argument predicate helper taking the timestamp by value
+	{Name: "way-late-helper", File: "way.go",
+		Find:    "func (w *Way) ApplyUpdatesUpTo(t time.Time) error {\n\tvar notApplied []Update\n\tfor _, u := range w.Updates {\n\t\tif u.Timestamp.After(t) {",
+		Replace: "func laterThan(stamp, limit time.Time) bool { return stamp.After(limit) }\n\nfunc (w *Way) ApplyUpdatesUpTo(t time.Time) error {\n\tvar notApplied []Update\n\tfor _, u := range w.Updates {\n\t\tif laterThan(u.Timestamp, t) {"},
+	// two passes: apply the filtered list, then collect the later updates
+	{Name: "way-two-passes", File: "way.go",
+		Find:    "\tvar notApplied []Update\n\tfor _, u := range w.Updates {\n\t\tif u.Timestamp.After(t) {\n\t\t\tnotApplied = append(notApplied, u)\n\t\t\tcontinue\n\t\t}\n\n\t\tif err := w.applyUpdate(u); err != nil {\n\t\t\treturn err\n\t\t}\n\t}\n",
+		Replace: "\tfor _, u := range w.Updates.UpTo(t) {\n\t\tif err := w.applyUpdate(u); err != nil {\n\t\t\treturn err\n\t\t}\n\t}\n\n\tvar notApplied []Update\n\tfor _, u := range w.Updates {\n\t\tif u.Timestamp.After(t) {\n\t\t\tnotApplied = append(notApplied, u)\n\t\t}\n\t}\n"},
+	// range test extracted into an error-returning helper over plain ints, field copies into a setter helper
+	{Name: "way-check-and-set-helpers", File: "way.go",
+		Find:    "\tif u.Index >= len(w.Nodes) {\n\t\treturn &UpdateIndexOutOfRangeError{Index: u.Index}\n\t}\n\n\tw.Nodes[u.Index].Version = u.Version\n\tw.Nodes[u.Index].ChangesetID = u.ChangesetID\n\tw.Nodes[u.Index].Lat = u.Lat\n\tw.Nodes[u.Index].Lon = u.Lon\n\n\treturn nil\n}\n",
+		Replace: "\tif err := checkIndex(u.Index, len(w.Nodes)); err != nil {\n\t\treturn err\n\t}\n\n\tsetNode(&w.Nodes[u.Index], u)\n\treturn nil\n}\n\nfunc checkIndex(i, n int) error {\n\tif i >= n {\n\t\treturn &UpdateIndexOutOfRangeError{Index: i}\n\t}\n\treturn nil\n}\n\nfunc setNode(n *WayNode, u Update) {\n\tn.Version = u.Version\n\tn.ChangesetID = u.ChangesetID\n\tn.Lat, n.Lon = u.Lat, u.Lon\n}\n"},
+	// orientation flip extracted into a method of the member
+	{Name: "rel-flip-helper", File: "relation.go",
+		Find:    "\tif u.Reverse {\n\t\tr.Members[u.Index].Orientation *= -1\n\t}\n\n\treturn nil\n}\n",
+		Replace: "\tif u.Reverse {\n\t\tr.Members[u.Index].flip()\n\t}\n\n\treturn nil\n}\n\nfunc (m *Member) flip() { m.Orientation *= -1 }\n"},
+	// classification extracted into a two-result splitter; the API applies one list and stores the other
+	{Name: "way-splitter", File: "way.go",
+		Find:    "func (w *Way) ApplyUpdatesUpTo(t time.Time) error {\n\tvar notApplied []Update\n\tfor _, u := range w.Updates {\n\t\tif u.Timestamp.After(t) {\n\t\t\tnotApplied = append(notApplied, u)\n\t\t\tcontinue\n\t\t}\n\n\t\tif err := w.applyUpdate(u); err != nil {\n\t\t\treturn err\n\t\t}\n\t}\n\n\tw.Updates = notApplied\n",
+		Replace: "func splitUpdates(us Updates, t time.Time) (due, later Updates) {\n\tfor _, u := range us {\n\t\tif u.Timestamp.After(t) {\n\t\t\tlater = append(later, u)\n\t\t} else {\n\t\t\tdue = append(due, u)\n\t\t}\n\t}\n\n\treturn due, later\n}\n\nfunc (w *Way) ApplyUpdatesUpTo(t time.Time) error {\n\tdue, later := splitUpdates(w.Updates, t)\n\tfor _, u := range due {\n\t\tif err := w.applyUpdate(u); err != nil {\n\t\t\treturn err\n\t\t}\n\t}\n\n\tw.Updates = later\n"},
 }
